@@ -228,6 +228,24 @@ Definition valid (c : case) : Prop :=
               (results _ _ _ _ _ (y_run table tree true (y_init w0 ncalls) sch)) = true
   end.
 
+(* [valid] as a boolean (every part of it is decidable from the case): C19_validb_valid *)
+Definition validb (c : case) : bool :=
+  match c with
+  | Cache capacity calls st sch =>
+      all_done _ _ _ _ _ (cr_run (cr_init capacity calls st) sch) &&
+      no_none (results _ _ _ _ _ (cr_run (cr_init capacity calls st) sch))
+  | Text contents badl ce calls st sch =>
+      all_done _ _ _ _ _ (tr_run contents badl ce (tr_init calls st) sch) &&
+      no_none (results _ _ _ _ _ (tr_run contents badl ce (tr_init calls st) sch))
+  | Store calls st sch =>
+      all_done _ _ _ _ _ (sr_run (sr_init calls st) sch) &&
+      no_none (results _ _ _ _ _ (sr_run (sr_init calls st) sch))
+  | Yaml table tree w0 ncalls st sch post =>
+      Nat.leb (length (envs_of sch)) 1 &&
+      y_order (y_specs table tree w0 sch) st post
+              (results _ _ _ _ _ (y_run table tree true (y_init w0 ncalls) sch))
+  end.
+
 (* ---------- sx ---------- *)
 Definition asCC (x : sx) : option ccall :=
   match x with
@@ -302,5 +320,5 @@ Definition entry (x : sx) : sx :=
   | None => sxS "bad-case"
   | Some (c, io) =>
       let m := run_model c in
-      L [ sx_obs m; L (map sxS (holds c m)); L (map sxS (holds c io)) ]
+      L [ sx_obs m; L (map sxS (holds c m)); L (map sxS (holds c io)); L []; sxBool (validb c) ]
   end.
